@@ -399,7 +399,27 @@ def evaluate_meta(ctx, cases, forb, stream):
                     'impl': f'{type(e).__name__}: {e}', 'theorem': 'Hpv.Props.C15.meta_round_trip / rows_round_trip'})
 
 
+def probe_outcomes():
+    """a fixed set of file round trips with keys and metadata outside ASCII, as a digest (environment probe)"""
+    out = {}
+    for name, keys, meta in (('ascii', ['A:1', 'B:1'], {'k': 'v'}), ('latin', ['Stra\u00dfe:1', 'caf\u00e9:2'], {'qui': '\u00e9t\u00e9'}),
+                             ('wide', ['\u8868:1', '\U0001F600:2'], {'\u75c5': '\u540d \U0001F9EC'})):
+        for suffix in ('.csv', '.csv.gz'):
+            c = _cls()(metadata=dict(meta))
+            c.set_similarity(keys[0], keys[1], 1.5)
+            c.set_similarity(keys[1], keys[1], 0.25)
+            try:
+                items, got_meta = csv_round_trip(c, suffix)
+                got_meta.pop('created', None)
+                out[f'{name}{suffix}'] = [items, got_meta]
+            except Exception as e:  # noqa
+                out[f'{name}{suffix}'] = f'raises {type(e).__name__}'
+    return out
+
+
 def run(ctx):
+    import common
+    common.environment_probe(ctx, 'c15', 'probe_outcomes', 'Hpv.Props.C15.container_file_round_trip (the codec is UTF-8 both ways)')
     rng = ctx.rng
     thorough = ctx.tier == 'thorough'
     keys = ['A', 'B']
@@ -419,7 +439,7 @@ def run(ctx):
         hists = [[rng.choice(base_ops) for _ in range(4)] + FINAL for _ in range(6000)]
         evaluate_hist(ctx, hists, 'sample.len=4')
     # random histories with special values
-    K = ['A:1', 'A:2', 'B:1', 'HP:0000001']
+    K = ['A:1', 'A:2', 'B:1', 'HP:0000001', 'a:1', 'Stra\u00dfe:1', 'STRASSE:1', 'strasse:1', '\ufb01:1', 'fi:1', 'A:1 ', '\u0130:1', 'i\u0307:1']      # case / case-fold / compatibility twins are DIFFERENT keys
     V = [0.0, 5e-324, 0.1, 1 / 3, 1.7976931348623157e308, -1.0, -5e-324, -0.0, 2.5, 1e-300, float('inf'), float('nan'), float('-inf')]
     hists = []
     for _ in range(4000 if thorough else 800):
